@@ -7,7 +7,7 @@ PROPS["C36"] = {
     "verus": ["bloom"],
     "kani": [],
     "level": "proof",
-    "level_text": "Unbounded Verus proof over the bloom filter's functions sliced verbatim from /repo on every run: might_contain(v) == all k probe bits set, insert sets them and clears nothing, for every size/hash count/history. The hash-index clause of C36 is not decided.",
+    "level_text": "Unbounded Verus proof over the bloom filter's functions sliced verbatim from /repo on every run: might_contain(v) == all k probe bits set, insert sets them and clears nothing, for every size/hash count/history. Hash-index clause: BOUNDED stand-in (not counted as proved) — every history of <= 5 insert/remove/rebuild operations over 4 tuples, get/get_with_bloom/probe return exactly the stored tuples with the probe key.",
     "level_note": "trusted: Verus+Z3; hash_pair deterministic (external_body); count<usize::MAX; HashIndex not covered",
     "technique": "Verus contracts (requires/ensures/loop invariants) on functions extracted from /repo each run, erasure-checked",
     "aux_failure": "violation",
@@ -50,7 +50,7 @@ PROPS["C32"] = {
     "verus": ["insert_dedup"],
     "kani": [],
     "level": "proof",
-    "level_text": "Unbounded Verus proof of the dedup loop of KnowledgeGraph::insert_in_memory (statement region sliced from /repo each run): the stored vector stays duplicate-free, its contents become old ∪ batch (in-batch duplicates included), new_count + dup_count = batch size and new_count = growth. Insert clause only; delete / conditional delete / update clauses are not decided.",
+    "level_text": "Unbounded Verus proof of the dedup loop of KnowledgeGraph::insert_in_memory (statement region sliced from /repo each run): the stored vector stays duplicate-free, its contents become old ∪ batch (in-batch duplicates included), new_count + dup_count = batch size and new_count = growth. Insert clause only; delete / conditional delete / update clauses are not decided. BOUNDED stand-in for the delete clause (not counted as proved): delete batches mixing present, absent and repeated tuples through StorageEngine against a set model.",
     "level_note": "trusted: Verus+Z3; Vec::contains is membership under PartialEq; Tuple's derived PartialEq/Clone are element-wise (C31 covers Value); the map lookup binding `existing_tuples`, and that the counters reach the caller unchanged, are outside the region",
     "technique": "Verus loop invariant on a statement region extracted from /repo each run, erasure-checked",
     "aux_failure": "violation",
@@ -72,7 +72,7 @@ PROPS["C11"] = {
     "verus": ["consolidate"],
     "kani": [],
     "level": "proof",
-    "level_text": "Unbounded Verus proof of the merge loop of consolidate_to_current (the function a restart replays the durable log through), sliced from /repo each run: for every tuple the net multiplicity of the output equals that of the log, no tuple appears twice, no zero entry remains. This is the recovery-function half of C11; that the write path keeps the log's net multiplicities equal to the live set is not decided.",
+    "level_text": "Unbounded Verus proof of the merge loop of consolidate_to_current (the function a restart replays the durable log through), sliced from /repo each run: for every tuple the net multiplicity of the output equals that of the log, no tuple appears twice, no zero entry remains. This is the recovery-function half of C11; that the write path keeps the log's net multiplicities equal to the live set is not decided. BOUNDED stand-ins on the whole engine (not counted as proved): every clean insert/delete history of length <= 5 over 2 tuples through StorageEngine, save, restart; histories with re-inserts / absent deletes (length <= 3) expose a genuine write-path defect recorded as a known finding.",
     "level_note": "trusted: Verus+Z3; slice::sort_by groups equal data (replaced by precondition `grouped`, relies on C31); |diff|<=1 and len<2^62 (no i64 overflow); write path (locks + file system) not covered",
     "technique": "Verus loop invariant on a statement region extracted from /repo each run, erasure-checked",
     "aux_failure": "violation",
@@ -112,7 +112,7 @@ PROPS["C35"] = {
     "verus": [],
     "kani": ["wire"],
     "level": "proof",
-    "level_text": "Kani/CBMC harnesses over the real compare_wire_values: reflexivity, antisymmetry and transitivity on fully symbolic triples within each comparison class (Int64 and Float64 form one class, every mix), payload-independent strict order across classes, class table a strict total order; with the ordinal-sum meta-lemma (Verus, shared with C31) this makes the comparator a total preorder on every mix of kinds, i.e. sort_by cannot observe an inconsistent comparator. Complete for absent/Null/Bool/Int32/Int64/Float64/Timestamp; strings/vectors/bytes BOUNDED (len<=1). Comparator clause only: the slice/total-count clauses (apply_pagination, sort_rows on Vec<WireTuple>) are not decided.",
+    "level_text": "Kani/CBMC harnesses over the real compare_wire_values: reflexivity, antisymmetry and transitivity on fully symbolic triples within each comparison class (Int64 and Float64 form one class, every mix), payload-independent strict order across classes, class table a strict total order; with the ordinal-sum meta-lemma (Verus, shared with C31) this makes the comparator a total preorder on every mix of kinds, i.e. sort_by cannot observe an inconsistent comparator. Complete for absent/Null/Bool/Int32/Int64/Float64/Timestamp; strings/vectors/bytes BOUNDED (len<=1). Comparator clause only: the slice/total-count clauses (apply_pagination, sort_rows on Vec<WireTuple>) are not decided. BOUNDED stand-in for the slice and sort clauses (not counted as proved): apply_pagination against the slice definition for len <= 6 and every limit/offset <= 8; sort_rows on every sequence of <= 4 rows from 11 mixed-kind values: permutation, sorted under the comparator, no panic.",
     "level_note": "trusted: Kani+CBMC; std String::cmp; slice::sort_by sorts when given a total preorder; pagination/total count not covered (CBMC out of memory on 3 rows; Verus rejects the iterator chain)",
     "technique": "Kani proof harnesses injected as a child module of src/protocol/handler.rs in a scratch copy (insert-only), full-domain symbolic scalars with concrete enum kinds; ordinal-sum meta-lemma in Verus",
     "aux_failure": "violation",
@@ -166,7 +166,7 @@ PROPS["C03"] = {
     "verus": ["codegen_guard"],
     "kani": ["codegen_guard"],
     "level": "proof",
-    "level_text": "Unbounded Verus proof, by structural induction over the real IRNode, that CodeGenerator::contains_join (sliced from /repo each run) returns true for every plan containing an operator that does not distribute over input partitions (Join, JoinFlatMap, Antijoin, Aggregate) — i.e. partitioned multi-worker execution is only ever used on distributing plans. Kani executes the real function (including the real Iterator::any) on 12 concrete trees (BOUNDED companion; supplies replayable counterexamples). The DD executions themselves and the partitioning function are outside both verifiers: this decides the guard, the necessary condition on which C03 rests.",
+    "level_text": "Unbounded Verus proof, by structural induction over the real IRNode, that CodeGenerator::contains_join (sliced from /repo each run) returns true for every plan containing an operator that does not distribute over input partitions (Join, JoinFlatMap, Antijoin, Aggregate) — i.e. partitioned multi-worker execution is only ever used on distributing plans. Kani executes the real function (including the real Iterator::any) on 12 concrete trees (BOUNDED companion; supplies replayable counterexamples). The DD executions themselves and the partitioning function are outside both verifiers: this decides the guard, the necessary condition on which C03 rests. BOUNDED stand-in on the whole engine (not counted as proved): 20 programs covering every operator class, incl. unions of aggregates, with 2/3/4/8 workers against 1 worker — this is what notices a change at the call site execute_with_config that bypasses the guard.",
     "level_note": "trusted: Verus+Z3, Kani+CBMC; assumed contract for Iterator::any on the Union arm; partition_data_for_worker assigns each tuple to exactly one worker; union of per-partition results equals the single-worker result for distributing plans (relational algebra, not checked)",
     "technique": "Verus postcondition on a recursive function extracted from /repo each run (erasure-checked, one listed substitution); Kani harnesses on concrete plan trees injected into a scratch copy",
     "aux_failure": "violation",
@@ -208,7 +208,7 @@ PROPS["C33"] = {
     "verus": ["matches"],
     "kani": ["validator"],
     "level": "proof",
-    "level_text": "Conformance: unbounded Verus proof that SchemaType::matches (and the storage-level DataType::matches), sliced from /repo each run together with the real Value/DataType/SchemaType definitions, equal the type table for EVERY value incl. every vector dimension. Enforcement: Kani on the real ValidationEngine::validate_batch/validate_tuple — accepted iff every tuple has the schema's arity and every value matches — BOUNDED (1 tuple x 1 column in quick; 2 tuples and arity mismatch in thorough) and therefore not counted as proved. That every insert path calls the validator is not decided.",
+    "level_text": "Conformance: unbounded Verus proof that SchemaType::matches (and the storage-level DataType::matches), sliced from /repo each run together with the real Value/DataType/SchemaType definitions, equal the type table for EVERY value incl. every vector dimension. Enforcement: Kani on the real ValidationEngine::validate_batch/validate_tuple — accepted iff every tuple has the schema's arity and every value matches — BOUNDED (1 tuple x 1 column in quick; 2 tuples and arity mismatch in thorough) and therefore not counted as proved. That every insert path calls the validator is not decided. BOUNDED stand-in (not counted as proved): batches of 1..1000 tuples over an (int, string, vector(2)) schema with one bad tuple of 8 kinds at the first/middle/last position.",
     "level_note": "trusted: Verus+Z3, Kani+CBMC; the type table `conforms` is the spec's reading of docs/spec/types.md plus the documented int->float and int-as-timestamp coercions; alloc::fmt::format stubbed in the Kani harnesses; handler call sites not covered",
     "technique": "Verus postconditions on functions extracted from /repo each run (bodies filled in by the extractor, erasure-checked); Kani bounded harnesses on the validator injected into a scratch copy",
     "aux_failure": "violation",
